@@ -175,17 +175,27 @@ theorem RxChip.write3f {c : Chip} {g : RxG} (h : RxChip c g) (v : UInt8) :
     · rw [if_neg h1]; exact h
 /-! ### the interpreter (uncached build, no events and no faults inside an operation) -/
 
-structure RxWorld (w : World) (g : RxG) : Prop where
+structure RxWorld (p0 : List UInt8) (o0 : Bool) (w : World) (g : RxG) : Prop where
   chip : RxChip w.chip g
   nosched : w.sched = []
   nofault : w.faults = []
   clean : g.faulted = false
+  /-- nothing arrives inside an operation without scheduled events -/
+  pend : g.pending = p0
+  ov : g.over = o0
+
+theorem RxG.take_pending (g : RxG) (n : Nat) (hp : ¬(g.take n).poison = true ∨ True) : (g.take n).pending = g.pending := by
+  unfold RxG.take
+  repeat (first | rfl | split | dsimp only)
+theorem RxG.take_over (g : RxG) (n : Nat) : (g.take n).over = g.over := by
+  unfold RxG.take
+  repeat (first | rfl | split | dsimp only)
 
 theorem RxG.take_faulted (g : RxG) (n : Nat) : (g.take n).faulted = g.faulted := by
   unfold RxG.take
   repeat (first | rfl | split | dsimp only)
 
-def rxAbs (w : World) (g : RxG) : Prop := g.poison = true ∨ g.ended = true ∨ RxWorld w g
+def rxAbs (p0 : List UInt8) (o0 : Bool) (w : World) (g : RxG) : Prop := g.poison = true ∨ g.ended = true ∨ RxWorld p0 o0 w g
 
 theorem pre_quiet (w : World) (hs : w.sched = []) (hf : w.faults = []) : w.pre = ({ w with xfer := w.xfer + 1 }, none) := by
   unfold World.pre; rw [hs, hf]; rfl
@@ -202,12 +212,12 @@ theorem rxR_dead {g : RxG} (hd : ¬g.live) (q : Req) (a : Ans) : rxE.R g q a g :
   unfold rxR
   rw [if_pos (rx_not_live hd)]
 
-theorem rxAbs_dead {g : RxG} (hd : ¬g.live) (w : World) : rxAbs w g := by
+theorem rxAbs_dead {p0 o0} {g : RxG} (hd : ¬g.live) (w : World) : rxAbs p0 o0 w g := by
   rcases rx_not_live hd with h | h
   · exact Or.inl h
   · exact Or.inr (Or.inl h)
 
-theorem rxAbs_live {w} {g : RxG} (hl : g.live) (ha : rxAbs w g) : RxWorld w g := by
+theorem rxAbs_live {p0 o0 w} {g : RxG} (hl : g.live) (ha : rxAbs p0 o0 w g) : RxWorld p0 o0 w g := by
   rcases ha with h | h | h
   · rw [hl.1] at h; cases h
   · rw [hl.2] at h; cases h
@@ -256,12 +266,12 @@ theorem bwrite_quiet (w : World) (hs : w.sched = []) (hf : w.faults = []) (reg :
   unfold Shadow.bwrite
   rw [busWriteBuf_quiet w hs hf]; rfl
 
-theorem rxAbs_poison (w : World) (g : RxG) : rxAbs w { g with poison := true } := Or.inl rfl
+theorem rxAbs_poison {p0 o0} (w : World) (g : RxG) : rxAbs p0 o0 w { g with poison := true } := Or.inl rfl
 
 /-- **the uncached interpreter over the chip model is an instance of the receive environment**,
     for operations without events or faults inside them (arrivals between operations are
     `env_rxByte` / `env_rxEnd` below) -/
-theorem rx_covers (onCb : CbEvent → Handle → World → Outcome Handle) : Covers rxE false onCb rxAbs where
+theorem rx_covers (p0 : List UInt8) (o0 : Bool) (onCb : CbEvent → Handle → World → Outcome Handle) : Covers rxE false onCb (rxAbs p0 o0) where
   sread := by
     intro w g reg n ha
     by_cases hl : g.live
@@ -302,7 +312,7 @@ theorem rx_covers (onCb : CbEvent → Handle → World → Outcome Handle) : Cov
         by_cases hn : n ≤ g.fifo.length
         · have hn' : n ≤ w.chip.fifo.length := by rw [hw.chip.fifo]; exact hn
           rw [readN_fifo_fsk n w.chip hw.chip.fsk hn']
-          refine ⟨g.take n, rxR_quiet hl hw.chip.room _ _ _ trivial ?_, Or.inr (Or.inr ⟨hw.chip.take n hn, hw.nosched, hw.nofault, by rw [RxG.take_faulted]; exact hw.clean⟩)⟩
+          refine ⟨g.take n, rxR_quiet hl hw.chip.room _ _ _ trivial ?_, Or.inr (Or.inr ⟨hw.chip.take n hn, hw.nosched, hw.nofault, by rw [RxG.take_faulted]; exact hw.clean, by rw [RxG.take_pending _ _ (Or.inr trivial)]; exact hw.pend, by rw [RxG.take_over]; exact hw.ov⟩)⟩
           unfold rxAnswer
           simp only [↓reduceIte]
           exact ⟨trivial, by rw [hw.chip.fifo]; simp; exact Nat.min_eq_left hn, fun _ => by rw [hw.chip.fifo]⟩
@@ -328,7 +338,7 @@ theorem rx_covers (onCb : CbEvent → Handle → World → Outcome Handle) : Cov
         obtain ⟨v, rfl⟩ : ∃ v, d = [v] := by
           match d, hlen with
           | [v], _ => exact ⟨v, rfl⟩
-        refine ⟨if v &&& 0x10 ≠ 0 then g.flush else g, rxR_quiet hl hw.chip.room _ _ _ trivial ?_, Or.inr (Or.inr ⟨?_, hw.nosched, hw.nofault, by split <;> exact hw.clean⟩)⟩
+        refine ⟨if v &&& 0x10 ≠ 0 then g.flush else g, rxR_quiet hl hw.chip.room _ _ _ trivial ?_, Or.inr (Or.inr ⟨?_, hw.nosched, hw.nofault, by split <;> exact hw.clean, by split <;> exact hw.pend, by split <;> exact hw.ov⟩)⟩
         · unfold rxAnswer
           simp only [List.length_singleton, and_self, ↓reduceIte, List.headD_cons]
           rfl
@@ -341,7 +351,7 @@ theorem rx_covers (onCb : CbEvent → Handle → World → Outcome Handle) : Cov
           obtain ⟨v, rfl⟩ : ∃ v, d = [v] := by
             match d, hlen with
             | [v], _ => exact ⟨v, rfl⟩
-          refine ⟨g, rxR_quiet hl hw.chip.room _ _ _ trivial ?_, Or.inr (Or.inr ⟨?_, hw.nosched, hw.nofault, hw.clean⟩)⟩
+          refine ⟨g, rxR_quiet hl hw.chip.room _ _ _ trivial ?_, Or.inr (Or.inr ⟨?_, hw.nosched, hw.nofault, hw.clean, hw.pend, hw.ov⟩)⟩
           · unfold rxAnswer
             simp only [List.length_singleton, and_true, show ¬((0x3e:Nat) = 0x3f) by decide, ↓reduceIte]
           · show RxChip (w.chip.writeN 0x3e [v]) g
@@ -371,15 +381,15 @@ theorem rx_covers (onCb : CbEvent → Handle → World → Outcome Handle) : Cov
     · have hw := rxAbs_live hl ha
       have hc := hw.chip
       rw [rread_quiet w hw.nosched hw.nofault]
-      have same : ∀ (g' : RxG), RxChip w.chip g' → g'.faulted = false → ∀ (a : Nat), a % 128 ≠ 0 →
-          rxAbs { w with xfer := w.xfer + 1, chip := (w.chip.readN a 1).2, bus := .r a 1 (.ok (be32 (w.chip.readN a 1).1)) :: w.bus } g' := by
-        intro g' hg' hcl a ha0
+      have same : ∀ (g' : RxG), RxChip w.chip g' → g'.faulted = false → g'.pending = p0 → g'.over = o0 → ∀ (a : Nat), a % 128 ≠ 0 →
+          rxAbs p0 o0 { w with xfer := w.xfer + 1, chip := (w.chip.readN a 1).2, bus := .r a 1 (.ok (be32 (w.chip.readN a 1).1)) :: w.bus } g' := by
+        intro g' hg' hcl hpe hov a ha0
         rw [readN_one _ _ ha0]
-        exact Or.inr (Or.inr ⟨hg', hw.nosched, hw.nofault, hcl⟩)
+        exact Or.inr (Or.inr ⟨hg', hw.nosched, hw.nofault, hcl, hpe, hov⟩)
       by_cases h3f : reg = 0x3f
       · subst h3f
         refine ⟨{ g with irq := (be32 (w.chip.readN 0x3f 1).1).toUInt8 }, rxR_quiet hl hc.room _ _ _ trivial ?_,
-          same { g with irq := (be32 (w.chip.readN 0x3f 1).1).toUInt8 } ⟨hc.fifo, hc.fsk, hc.thr, hc.ready, hc.crc, hc.sent, hc.ovr, hc.cfg1, hc.cfg2, hc.plen, hc.room, hc.len⟩ hw.clean 0x3f (by decide)⟩
+          same { g with irq := (be32 (w.chip.readN 0x3f 1).1).toUInt8 } ⟨hc.fifo, hc.fsk, hc.thr, hc.ready, hc.crc, hc.sent, hc.ovr, hc.cfg1, hc.cfg2, hc.plen, hc.room, hc.len⟩ hw.clean hw.pend hw.ov 0x3f (by decide)⟩
         unfold rxAnswer
         simp only [↓reduceIte, true_and]
         rw [readN_one _ 0x3f (by decide)]
@@ -390,7 +400,7 @@ theorem rx_covers (onCb : CbEvent → Handle → World → Outcome Handle) : Cov
         by_cases h1 : 1 ≤ g.fifo.length
         · have h1' : 1 ≤ w.chip.fifo.length := by rw [hc.fifo]; exact h1
           rw [readN_fifo_fsk 1 w.chip hc.fsk h1']
-          refine ⟨g.take 1, rxR_quiet hl hc.room _ _ _ trivial ?_, Or.inr (Or.inr ⟨hc.take 1 h1, hw.nosched, hw.nofault, by rw [RxG.take_faulted]; exact hw.clean⟩)⟩
+          refine ⟨g.take 1, rxR_quiet hl hc.room _ _ _ trivial ?_, Or.inr (Or.inr ⟨hc.take 1 h1, hw.nosched, hw.nofault, by rw [RxG.take_faulted]; exact hw.clean, by rw [RxG.take_pending _ _ (Or.inr trivial)]; exact hw.pend, by rw [RxG.take_over]; exact hw.ov⟩)⟩
           unfold rxAnswer
           simp only [show ¬((0:Nat) = 0x3f) by decide, ↓reduceIte, true_and]
           intro _
@@ -407,7 +417,7 @@ theorem rx_covers (onCb : CbEvent → Handle → World → Outcome Handle) : Cov
             rw [if_neg (by decide), if_neg h1]
       by_cases h30 : reg = 0x30
       · subst h30
-        refine ⟨g, rxR_quiet hl hc.room _ _ _ trivial ?_, same g hc hw.clean 0x30 (by decide)⟩
+        refine ⟨g, rxR_quiet hl hc.room _ _ _ trivial ?_, same g hc hw.clean hw.pend hw.ov 0x30 (by decide)⟩
         unfold rxAnswer
         simp only [show ¬((0x30:Nat) = 0x3f) by decide, show ¬((0x30:Nat) = 0) by decide, ↓reduceIte, true_and]
         rw [readN_one _ 0x30 (by decide)]
@@ -415,7 +425,7 @@ theorem rx_covers (onCb : CbEvent → Handle → World → Outcome Handle) : Cov
         exact hc.cfg1
       by_cases h31 : reg = 0x31
       · subst h31
-        refine ⟨g, rxR_quiet hl hc.room _ _ _ trivial ?_, same g hc hw.clean 0x31 (by decide)⟩
+        refine ⟨g, rxR_quiet hl hc.room _ _ _ trivial ?_, same g hc hw.clean hw.pend hw.ov 0x31 (by decide)⟩
         unfold rxAnswer
         simp only [show ¬((0x31:Nat) = 0x3f) by decide, show ¬((0x31:Nat) = 0) by decide, show ¬((0x31:Nat) = 0x30) by decide, ↓reduceIte, true_and]
         rw [readN_one _ 0x31 (by decide)]
@@ -423,7 +433,7 @@ theorem rx_covers (onCb : CbEvent → Handle → World → Outcome Handle) : Cov
         exact hc.cfg2
       by_cases h32 : reg = 0x32
       · subst h32
-        refine ⟨g, rxR_quiet hl hc.room _ _ _ trivial ?_, same g hc hw.clean 0x32 (by decide)⟩
+        refine ⟨g, rxR_quiet hl hc.room _ _ _ trivial ?_, same g hc hw.clean hw.pend hw.ov 0x32 (by decide)⟩
         unfold rxAnswer
         simp only [show ¬((0x32:Nat) = 0x3f) by decide, show ¬((0x32:Nat) = 0) by decide, show ¬((0x32:Nat) = 0x30) by decide,
           show ¬((0x32:Nat) = 0x31) by decide, ↓reduceIte, true_and]
@@ -431,7 +441,7 @@ theorem rx_covers (onCb : CbEvent → Handle → World → Outcome Handle) : Cov
         simp only [show (0x32 % 128) = 0x32 from rfl, be32_single, peek_fsk _ _ hc.fsk (show inPage 0x32 = true by decide) (by decide)]
         exact hc.plen
       by_cases h3e : reg = 0x3e ∨ reg = 0x11
-      · refine ⟨g, rxR_quiet hl hc.room _ _ _ trivial ?_, same g hc hw.clean reg (by rcases h3e with e | e <;> rw [e] <;> decide)⟩
+      · refine ⟨g, rxR_quiet hl hc.room _ _ _ trivial ?_, same g hc hw.clean hw.pend hw.ov reg (by rcases h3e with e | e <;> rw [e] <;> decide)⟩
         unfold rxAnswer
         simp only [h3f, h00, h30, h31, h32, h3e, ↓reduceIte]
       · refine ⟨{ g with poison := true }, rxR_quiet hl hc.room _ _ _ trivial ?_, rxAbs_poison _ _⟩
